@@ -120,6 +120,19 @@ CLAIMED["C12"] = dict(
     ref="DESIGN.md section 2 (C12)",
     technique="TLA+ arithmetic/evaluation spec + TLC exhaustive enumeration of expression trees (stage-independence invariant) + spec->code replay through the real assembler")
 
+CLAIMED["C02"] = dict(
+    text="FJAsm.tla defines pass 1 of the primitive language (addresses of statements and labels, $, pad alignment, reserve pieces, segments, "
+         "Possible) on unbounded integers and states pass 2 as CONSTRAINTS on the image - Denotes (every op holds its operand values), WFlipWalk "
+         "(walking a wflip statement from its own address flips exactly the set bits of v in word a, each once, in max(1,popcount) ops and arrives "
+         "at r), AuxClear (auxiliary ops never overlap user statements or reserved space), ReservedZero, LabelsExact - without fixing a placement "
+         "policy. Seeded programs at w=8/16/32/64 x fjm versions 0-3 (labels, $, wflips with shared returns, pads, reserves, far segments, "
+         "deliberately impossible layouts) are assembled by the real assembler and TLC judges the loaded image, the label table and accept/reject "
+         "(Trace_FJAsm).",
+    note="Trusted: FJAsm.tla. Operand expressions are number / label+offset / $+offset (general expressions are C12's). Generated programs leave room "
+         "for the wflip areas; programs are seeded samples, not all programs (an exhaustive small-scope enumeration by TLC is planned).",
+    ref="DESIGN.md section 2 (C02)",
+    technique="TLA+ spec of layout + image constraints; TLC trace validation (code->spec) of assembled images and label tables")
+
 NOT_YET = {}
 
 
